@@ -34,6 +34,7 @@ THEOREMS = [
     "SleapVerif.C02.single_roundtrip_border_counterexample",
     "SleapVerif.C02.gtc_roundtrip",
     "SleapVerif.C02.gtc_asIs_counterexample",
+    "SleapVerif.C02.unravel_exact",
     "SleapVerif.C02.in_tensor_in_range",
     "SleapVerif.C02.last_band_counterexample",
     "SleapVerif.C02.topdown_roundtrip_robust",
@@ -376,7 +377,8 @@ def impl_single(case, provider, vids):
     flat = [f for v in vids for f in v]
     scene = Scene(flat, case["n_nodes"])
     labels, svids = stubs.make_labels(vids, node_names=[f"n{i}" for i in range(case["n_nodes"])],
-                                      order=case.get("order"), ramp=True)
+                                      order=case.get("order"), ramp=True,
+                                      same_name=bool(case.get("same_filename")))
     p, net = stubs.build_single(scene, labels.skeletons, scale=case["scale"], os_=case["os"],
                                 max_stride=case["ms"], max_hw=tuple(case["max_hw"]),
                                 batch_size=case["batch"], refinement=case["refine"], threshold=float(case.get("thr", THR)),
@@ -416,7 +418,8 @@ def impl_topdown(case, provider, vids):
     flat = [f for v in vids for f in v]
     scene = Scene(flat, case["n_nodes"])
     labels, svids = stubs.make_labels(vids, node_names=[f"n{i}" for i in range(case["n_nodes"])],
-                                      order=case.get("order"), ramp=True)
+                                      order=case.get("order"), ramp=True,
+                                      same_name=bool(case.get("same_filename")))
     p, cnet, inet = stubs.build_topdown(
         scene, labels.skeletons, sc=case["sc"], os_c=case["os_c"], ms_c=case["ms_c"], si=case["si"],
         os_i=case["os_i"], ms_i=case["ms_i"], crop_hw=case["crop_hw"], max_hw=tuple(case["max_hw"]),
@@ -1205,6 +1208,77 @@ def replay_witness(chk):
     return bad and ok_vid, f"keypoint {p}: LabelsReader {a}, VideoReader {b}, input shapes {lab[0]['hw']} vs {vid[0]['hw']}"
 
 
+LARGE_MAPS = [(4100, 4100, 4095, 1001), (1, 16777300, 0, 16777299), (5000, 3400, 4990, 3333), (4097, 4099, 4094, 4001)]
+
+
+def large_map_cases(chk, n):
+    """Maps with MORE THAN 2^24 cells (a float32 cannot hold their flat indices): a zero map with one hot
+    cell at a high odd flat index through the real `find_global_peaks_rough`, `find_global_peaks` (none /
+    integral) and `SingleInstanceInferenceModel.forward` (stride/scale/eff decode).  The model side is
+    exact integer arithmetic (`Decode.unravel`).  One 67 MB tensor at a time, freed after use."""
+    import gc
+    import torch
+    from sleap_nn.inference.peak_finding import find_global_peaks, find_global_peaks_rough
+    from sleap_nn.inference.single_instance import SingleInstanceInferenceModel
+
+    class Fixed(torch.nn.Module):
+        def __init__(self, cms):
+            super().__init__()
+            self.cms = cms
+
+        def forward(self, x):
+            return self.cms
+    rng = chk.rng
+    picks = LARGE_MAPS[:n] if n >= len(LARGE_MAPS) else rng.sample(LARGE_MAPS, n)
+    lines = [f"unravel {w} {r * w + col}" for (h, w, r, col) in picks]
+    model = run_driver("C02.lean", lines)
+    for (h, w, r, col), ml in zip(picks, model):
+        mx, my = (int(t) for t in ml.split()[1:3])
+        cms = torch.zeros((1, 1, h, w), dtype=torch.float32)
+        cms[0, 0, r, col] = 1.0
+        case = {"family": "large_map", "H": h, "W": w, "hot_row": r, "hot_col": col, "flat_index": r * w + col}
+        got = {}
+        try:
+            pts, vals = find_global_peaks_rough(cms, threshold=0.2)
+            got["rough"] = [float(pts[0, 0, 0]), float(pts[0, 0, 1]), float(vals[0, 0])]
+            for refine in (None, "integral"):
+                pts, vals = find_global_peaks(cms, threshold=0.2, refinement=refine, integral_patch_size=5)
+                got[f"global:{refine}"] = [float(pts[0, 0, 0]), float(pts[0, 0, 1]), float(vals[0, 0])]
+            os_, scale, eff = 2, 0.5, 1.25
+            m = SingleInstanceInferenceModel(torch_model=Fixed(cms), output_stride=os_, peak_threshold=0.2, refinement=None,
+                                             input_scale=scale)
+            out = m({"image": torch.zeros((1, 1, 1, 4, 4)), "eff_scale": torch.tensor([eff], dtype=torch.float32)})[0]
+            q = out["pred_instance_peaks"][0, 0]
+            got["single_model"] = [float(q[0]), float(q[1]), float(out["pred_peak_values"][0, 0])]
+        except Exception as e:
+            chk.disagree("implementation raised where the model does not", case, f"raise:{type(e).__name__}: {str(e)[:200]}", "ok")
+            chk.fail(f"C02: peak finding raised {type(e).__name__} on a {h}x{w} map", case, None)
+            continue
+        finally:
+            del cms
+            gc.collect()
+        chk.case(("large_map", h, w, r, col), {"case": "large_map", **case, "impl": got, "model": ml},
+                 tags=["large_map_cells>2^24"])
+        why = []
+        for name, (x, y, v) in got.items():
+            if name == "single_model":
+                ex, ey = mx * os_ / scale / eff, my * os_ / scale / eff
+                tol, cell = 1e-3 * max(1.0, ex), os_ / scale / eff
+            else:
+                ex, ey, tol, cell = float(mx), float(my), 1e-3, 1.0
+            # float32 output: coordinates above 2^24 are not exactly representable; one ulp is the tolerance
+            tolx, toly = max(tol, abs(ex) * 2.0 ** -23), max(tol, abs(ey) * 2.0 ** -23)
+            if abs(x - ex) > tolx or abs(y - ey) > toly or v != 1.0:
+                chk.disagree(f"{name} on a map with > 2^24 cells == Decode.unravel", case, [x, y, v], [ex, ey, 1.0])
+            # oracle (model-free): the hot cell is (col, r); the answer must be within half a cell of it
+            tx, ty = (col, r) if name != "single_model" else (col * cell, r * cell)
+            if abs(x - tx) > 0.5 * cell + tolx or abs(y - ty) > 0.5 * cell + toly:
+                why.append(f"{name}: the only non-zero cell is (x={col}, y={r}) [flat index {r * w + col} > 2^24], "
+                           f"returned ({x}, {y}): {max(abs(x - tx), abs(y - ty)) / cell:.2f} cell off")
+        if why:
+            chk.fail("C02 fails on a large map: " + "; ".join(why[:2]), case, got)
+
+
 def main(chk: Check):
     chk.build_and_audit()
     import_repo()
@@ -1243,6 +1317,7 @@ def main(chk: Check):
     for i in range(chk.n(14, 150)):
         cases.append(gen_topdown_focus(rng, refine=("integral" if i % 4 == 3 else None)))
     run_cases(chk, cases)
+    large_map_cases(chk, chk.n(2, 4))
     # failing-input search: the correspondence broke but no input violates the property yet →
     # sweep the focused family (×20 budget) where a wrong centroid/crop/offset becomes visible
     if chk.disagreements and not chk.failing:
@@ -1279,7 +1354,9 @@ if __name__ == "__main__":
         rule="(H,W) in 4·[8,24] x (max_h,max_w) in {none, dyadic eff 1/2..2 (+padding), free} x scale {.5,.75,1,1.5} x max_stride "
              "{1,2,4,8,16} x output stride | max_stride x crop {16..48}² x batch 1..4 x refinement {none, integral} x provider "
              "{LabelsReader (1-2 videos), VideoReader}; keypoints on the k/16+1/64 lattice, 25% invisible; top-down: 0-3 animals "
-             "per frame ≥ 7 centroid cells apart (incl. animals closer to a border than half a crop); + focused family: centroid "
+             "per frame ≥ 7 centroid cells apart; + large single-channel maps with > 2^24 cells (one hot cell at a high odd flat "
+             "index; the model side, Decode.unravel, is exact Nat div/mod) through the real peak functions and "
+             "SingleInstanceInferenceModel.forward (incl. animals closer to a border than half a crop); + focused family: centroid "
              "stride padding really applied x far-corner animal x crop just covering it; distinct = distinct (pipeline, provider, config, frame size, keypoints); "
              "trivial = frame without animals",
         assumptions=["crop contains the animal: asserted from the true geometry (keypoint in the crop's grid range for every "
